@@ -303,10 +303,10 @@ func (r *result) oracleMedia(sc scenario, req areq, o *outcome, ref *aplaylist, 
 				ok = n >= 0 && n <= len(ref.Segments) && len(o.Pl.Segments) == len(ref.Segments)-n &&
 					o.Pl.MediaSequence == ref.MediaSequence && o.Pl.TargetDuration == ref.TargetDuration
 				if ok {
-					a, _ := json.Marshal(o.Pl.Segments)
-					b, _ := json.Marshal(ref.Segments[n:])
-					pa, _ := json.Marshal(o.Pl.Parts)
-					pb, _ := json.Marshal(ref.Parts)
+					a, _ := json.Marshal(append([]plentry{}, o.Pl.Segments...))
+					b, _ := json.Marshal(append([]plentry{}, ref.Segments[n:]...))
+					pa, _ := json.Marshal(append([]uint64{}, o.Pl.Parts...))
+					pb, _ := json.Marshal(append([]uint64{}, ref.Parts...))
 					ok = bytes.Equal(a, b) && bytes.Equal(pa, pb) && fmt.Sprint(deref(o.Pl.Hint)) == fmt.Sprint(deref(ref.Hint))
 				}
 			}
